@@ -53,14 +53,20 @@ def main():
     shutil.copy(os.path.join(wt, demo), os.path.join(out, demo))
     if meta["valid"] and not os.environ.get("SEED_NO_CHECK"):
         env = dict(os.environ, OMBOTT_REPO=wt, VERIF_EVIDENCE_OUT="/tmp/seed_ev_%s.json" % name)
-        rc, o, t = run([os.path.join(ROOT, "check"), pid, tier], cwd=ROOT, env=env)
+        only = os.environ.get("SEED_ONLY")       # restrict the run to the queries matching a pattern (recorded in the meta)
+        if only:
+            env.update(PYTHONDONTWRITEBYTECODE="1", PYTHONHASHSEED="0")
+            rc, o, t = run([os.path.join(ROOT, ".venv/bin/python"), "-m", "vf.run", pid, "--tier", tier, "--only", only], cwd=ROOT, env=env)
+        else:
+            rc, o, t = run([os.path.join(ROOT, "check"), pid, tier], cwd=ROOT, env=env)
         viol = [ln for ln in o.splitlines() if ln.startswith("VIOLATION")]
         first = ""
         for i, ln in enumerate(o.splitlines()):
             if ln.startswith("VIOLATION"):
                 first = "\n".join(o.splitlines()[i:i + 3])[:700]
                 break
-        meta["check"] = {"cmd": "OMBOTT_REPO=<worktree with the change> ./check %s %s" % (pid, tier), "exit": rc,
+        meta["check"] = {"cmd": "OMBOTT_REPO=<worktree with the change> ./check %s %s" % (pid, tier) + (
+            " (restricted to the queries matching %r: python -m vf.run %s --tier %s --only ...)" % (only, pid, tier) if only else ""), "exit": rc,
                          "violations": len(viol), "first": first, "wall_s": t,
                          "summary": [ln for ln in o.splitlines() if ln.startswith(pid + " ")][-1:]}
         meta["detected"] = rc == 1 and bool(viol)
